@@ -365,6 +365,38 @@ def templates(tier="quick"):
                        Stmt("top", ex=["obj", "obj2"])])
     T += _mk("alias_before_two_producers", [v], tags=["phony", "order-only"], depth=d, js=(2, 3), max_fault_stmts=2)
 
+    # T38 a plain-depfile statement whose tool spells its own target the way compilers do with -o ./obj/x.o
+    for spn, sp in (("dot", "./obj/x.o"), ("dotdot", "obj/../obj/x.o")):
+        o = Stmt("obj/x.o", ex=["x.c"], hidden=["h"], depfile=True)
+        o.dep_spell = {"obj/x.o": sp}
+        T += _mk("depfile_target_spelled_" + spn, [Variant("v0", [o, Stmt("exe", ex=["obj/x.o"])])], tags=["depfile", "spelling"], depth=d,
+                 js=(1, 2), max_fault_stmts=1, edits_during=False)
+
+    # T39 an implicit output that only an up-to-date dyndep file declares and nothing else names
+    v = Variant("v0", [Stmt("dd", ex=["dd.in"], copy=True), Stmt("out", ex=["in"], oo=["dd"], dyndep="dd", extra_outs=["out.x"]),
+                       Stmt("top", ex=["out"])])
+    T += _mk("dyndep_output_unnamed_elsewhere", [v], tags=["dyndep"], depth=d, js=(1, 2), max_fault_stmts=1, edits_during=False,
+             files={"dd.in": _ddt([("out", ["out.x"], [], False)])}, touch_only=("dd.in",))
+
+    # T40 a build log of more than 256 KiB (the loader reads it in chunks of that size): a long history of outputs that are
+    # gone, sized so that the records the first build appends lie across the chunk boundary
+    for off in (8, 30, 60, 100):
+        line = "0\t1\t1700000000000000000\t%s\tabcdef0123456789\n"
+        name = lambda i: ("gone/" + "d" * 40 + "%06d") % i
+        L = len(line % name(0))
+        body = "# ninja log v7\n"
+        i = 0
+        while len(body) + L <= 262144 - off:
+            body += line % name(i)
+            i += 1
+        # lengthen the last dead record's name so that the file ends exactly `off` bytes before the boundary
+        pad = 262144 - off - len(body)
+        body = body[:-L] + line % (name(i - 1) + "p" * pad)
+        assert len(body) == 262144 - off
+        v = Variant("v0", [Stmt("a", ex=["s"]), Stmt("b", ex=["a"]), Stmt("c", ex=["b", "t"])])
+        T += _mk("log_across_chunk_boundary_%d" % off, [v], tags=["buildlog"], depth=2, js=(1,), with_faults=False, edits_during=False,
+                 files={".ninja_log": body})
+
     # T32 declared sources that are missing and have no rule: as explicit, implicit, order-only input and as a validation,
     # of statements with and without work to do (C05: reported before any command runs)
     v = Variant("v0", [Stmt("a", ex=["s"]), Stmt("b", ex=["a"], im=["isrc"]), Stmt("c", ex=["t"], oo=["osrc"]),
